@@ -4,6 +4,7 @@ import ObiVerif.Lemmas.Grep
 import ObiVerif.Lemmas.Annotate
 import ObiVerif.Lemmas.AnnotateLib
 import ObiVerif.Lemmas.Distribute
+import ObiVerif.Lemmas.Getopt
 import ObiVerif.Props.C03
 /-!
 # C16 — obigrep, obiannotate, obidistribute act on each record as their options say
@@ -343,11 +344,11 @@ example : Distribute.rotateCodes 3 [10, 11, 12, 13, 14, 15, 16] = [1, 2, 3, 1, 2
 
 open ObiVerif.Distribute in
 /-- **the file is determined by the class, and only by it** (`WriterDispatcher`): two classes get the
-same file name iff they are equal, for plain names (no `/` in the pattern, keys and directories)
-and when the output is not compressed or the pattern suffix has 3 characters or more.  (Without
-the last condition `fileNameL_gz_collision` is a counterexample: `-Z`, pattern `a%s`, classes `x`
-and `x.gz`.) -/
-theorem file_determined_by_class (o : DistOpts) (hz : o.compressed = false ∨ 3 ≤ o.patSuf.toList.length)
+same file name iff they are equal, for plain names (no `/` in the pattern, keys and directories),
+compressed or not and whatever the pattern.  (The former side condition "not compressed or pattern
+suffix of 3 characters or more" is gone with the repair of `WriterDispatcher`: the `.gz` extension
+depends on the pattern only — `fileNameL_no_gz_collision`, `compressed_extension`.) -/
+theorem file_determined_by_class (o : DistOpts)
     (kd1 kd2 : String × String)
     (hp : '/' ∉ o.patPre.toList) (hs : '/' ∉ o.patSuf.toList)
     (h1 : '/' ∉ kd1.1.toList ∧ '/' ∉ kd1.2.toList) (h2 : '/' ∉ kd2.1.toList ∧ '/' ∉ kd2.2.toList) :
@@ -356,7 +357,7 @@ theorem file_determined_by_class (o : DistOpts) (hz : o.compressed = false ∨ 3
   · intro h
     have h' := congrArg String.toList h
     simp only [fileName, String.toList_ofList] at h'
-    obtain ⟨e1, e2⟩ := fileNameL_injective _ _ _ hz _ _ _ _ hp hs h1.1 h2.1 h1.2 h2.2 h'
+    obtain ⟨e1, e2⟩ := fileNameL_injective _ _ _ _ _ _ _ hp hs h1.1 h2.1 h1.2 h2.2 h'
     exact Prod.ext (String.toList_inj.mp e1) (String.toList_inj.mp e2)
   · intro h; rw [h]
 
@@ -384,6 +385,51 @@ example :
     Distribute.distributeFiles { patPre := "b", patSuf := "", batchCount := 2, compressed := true } (.rotate 2)
       [⟨"a", [97], []⟩, ⟨"b", [97], []⟩, ⟨"c", [97], []⟩]
       = [("b1.gz", ["a", "c"]), ("b2.gz", ["b"])] := by decide
+
+open ObiVerif.Distribute in
+/-- **`--append`**: after the run, a file the run writes holds — with `--append` — what it held before
+followed by the records of its class in input order, and — without — only those records; a file that
+is the file of no record of the input is exactly as before (with or without `--append`) -/
+theorem append_effect (o : DistOpts) (c : Classifier) (existing : List (String × List String)) (recs : List Rec)
+    (g : String) :
+    let routed := ((recs.zipIdx).filter fun ri => fileName o (classOf c ri.2 ri.1) == g).map (·.1.id)
+    (routed ≠ [] →
+      (distributeFilesOn o c existing recs).lookup g =
+        some ((if o.append then (existing.lookup g).getD [] else []) ++ routed)) ∧
+    (routed = [] → (distributeFilesOn o c existing recs).lookup g = existing.lookup g) := by
+  intro routed
+  have hc := distributeFiles_content o c recs g
+  have hd := distributeFilesOn_content o c existing recs g
+  have hmem : ∀ ids, (distributeFiles o c recs).lookup g = some ids → ids ≠ [] := by
+    intro ids h
+    exact distributeFiles_nonempty o c recs g ids h
+  constructor
+  · intro hne
+    cases hl : (distributeFiles o c recs).lookup g with
+    | none => rw [hl] at hc; exact absurd hc.symm hne
+    | some ids =>
+      rw [hl] at hc hd
+      rw [hd]
+      simp only [Option.getD_some] at hc
+      rw [hc]
+  · intro he
+    cases hl : (distributeFiles o c recs).lookup g with
+    | none => rw [hl] at hd; exact hd
+    | some ids =>
+      rw [hl] at hc
+      simp only [Option.getD_some] at hc
+      exact absurd (hc.trans he) (hmem ids hl)
+
+/-- test: `-A` on a directory holding `out_A.fasta` and `other.fasta` -/
+example :
+    Distribute.distributeFilesOn { patPre := "out_", patSuf := ".fasta", classifierTag := "sample", append := true }
+      (.dual "sample" "" "NA") [("out_A.fasta", ["old1", "old2"]), ("other.fasta", ["old3"])]
+      [⟨"a", [97], [("sample", .str "A")]⟩, ⟨"b", [97], []⟩, ⟨"c", [97], [("sample", .str "A")]⟩]
+      = [("out_A.fasta", ["old1", "old2", "a", "c"]), ("out_NA.fasta", ["b"]), ("other.fasta", ["old3"])] ∧
+    Distribute.distributeFilesOn { patPre := "out_", patSuf := ".fasta", classifierTag := "sample" }
+      (.dual "sample" "" "NA") [("out_A.fasta", ["old1", "old2"]), ("other.fasta", ["old3"])]
+      [⟨"a", [97], [("sample", .str "A")]⟩, ⟨"b", [97], []⟩, ⟨"c", [97], [("sample", .str "A")]⟩]
+      = [("out_A.fasta", ["a", "c"]), ("out_NA.fasta", ["b"]), ("other.fasta", ["old3"])] := by decide
 
 /-- `Value(Code(r))` of the annotation classifiers is the class of `r`: the codes are handed out in
 order of first occurrence and `decode[code]` gives the class value back, whatever comes later; two
@@ -654,6 +700,241 @@ example : ∃ r', annotate exA exAOpts exRec = .ok r' ∧ r'.seq = exRec.seq ∧
   · exact annotate_keeps_attribute exA exAOpts exRec _ "b" (by decide) (by decide) (by decide) (by decide)
       (by decide) (by decide) (by decide) rfl
 
+
+/-! ### the library-driven workers: fresh slot names, and what each of them writes -/
+
+/-- **for every option set, no attribute name a library-driven worker may write is a key that
+`SetAttribute` treats specially** (`id`, `sequence`, `qualities`): these workers never touch the
+identifier or the sequence and never panic on a reserved key -/
+theorem library_slots_fresh (o : AnnotOpts) :
+    ∀ k ∈ libraryKeys o, k ≠ "id" ∧ k ≠ "sequence" ∧ k ≠ "qualities" := by
+  intro k hk
+  have h := libraryKeys_not_reserved o k hk
+  exact ⟨fun e => h (Or.inl e), fun e => h (Or.inr (Or.inl e)), fun e => h (Or.inr (Or.inr e))⟩
+
+/-- the slot names of `--add-lca-in SLOT`: the taxid slot ends with `taxid` (`SLOT` itself when it
+already does, `SLOT_taxid` otherwise); the name and error slots are that name with its **first**
+`taxid` replaced by `name` / `error` (nothing before it or after it changes), `scientific_name` /
+`lca_error` when the result would be the bare word -/
+theorem lca_slots_shape (slot : List Char) :
+    taxidL <:+ (lcaSlotsL slot).1 ∧
+    (taxidL <:+ slot → (lcaSlotsL slot).1 = slot) ∧
+    (¬ taxidL <:+ slot → (lcaSlotsL slot).1 = slot ++ '_' :: taxidL) ∧
+    ∃ pre post, (lcaSlotsL slot).1 = pre ++ taxidL ++ post ∧
+      (∀ pre' post', (lcaSlotsL slot).1 = pre' ++ taxidL ++ post' → pre.length ≤ pre'.length) ∧
+      (lcaSlotsL slot).2.1 = (if pre ++ nameL ++ post = nameL then
+        ['s', 'c', 'i', 'e', 'n', 't', 'i', 'f', 'i', 'c', '_'] ++ nameL else pre ++ nameL ++ post) ∧
+      (lcaSlotsL slot).2.2 = (if pre ++ errorL ++ post = errorL then ['l', 'c', 'a', '_'] ++ errorL
+        else pre ++ errorL ++ post) := by
+  refine ⟨lcaSlot_suffix slot, ?_, ?_, ?_⟩
+  · intro h
+    have : taxidL.isSuffixOf slot = true := List.isSuffixOf_iff_suffix.mpr h
+    simp [lcaSlotsL, this]
+  · intro h
+    have : ¬ taxidL.isSuffixOf slot = true := fun e => h (List.isSuffixOf_iff_suffix.mp e)
+    simp [lcaSlotsL, this]
+  · have hin := taxid_in_lcaSlot slot
+    obtain ⟨pre, post, e1, e2, e3⟩ := (replaceFirstL_spec taxidL nameL (by decide) _).2 hin
+    obtain ⟨pre', post', f1, f2, f3⟩ := (replaceFirstL_spec taxidL errorL (by decide) _).2 hin
+    -- the two decompositions are the same one: both are the first occurrence
+    have hl : pre.length = pre'.length := Nat.le_antisymm (e3 pre' post' f1) (f3 pre post e1)
+    have hpp : pre = pre' ∧ post = post' := by
+      have e := e1.symm.trans f1
+      rw [List.append_assoc, List.append_assoc] at e
+      have h1 := List.append_inj e hl
+      exact ⟨h1.1, List.append_cancel_left h1.2⟩
+    obtain ⟨rfl, rfl⟩ := hpp
+    refine ⟨pre, post, e1, e3, ?_, ?_⟩
+    · show (if replaceFirstL taxidL nameL (lcaSlotsL slot).1 = nameL then _
+        else replaceFirstL taxidL nameL (lcaSlotsL slot).1) = _
+      rw [e2]
+    · show (if replaceFirstL taxidL errorL (lcaSlotsL slot).1 = errorL then _
+        else replaceFirstL taxidL errorL (lcaSlotsL slot).1) = _
+      rw [f2]
+
+/-- test: the slot names for `lca`, `taxid`, `sp_taxid` and `taxid_x` (first occurrence!) -/
+example : lcaSlots "lca" = ("lca_taxid", "lca_name", "lca_error") ∧
+    lcaSlots "taxid" = ("taxid", "scientific_name", "lca_error") ∧
+    lcaSlots "sp_taxid" = ("sp_taxid", "sp_name", "sp_error") ∧
+    lcaSlots "taxid_x" = ("taxid_x_taxid", "name_x_taxid", "error_x_taxid") := by
+  refine ⟨by decide, by decide, by decide, by decide⟩
+
+/-- `--with-taxon-at-rank RANK` (one rank; several ranks are applied from left to right,
+`chain_semantics`): the record is unchanged when its taxid is unknown to the taxonomy; otherwise exactly
+`RANK_taxid` and `RANK_name` are written — the ancestor found, or `-1` / `NA` when there is none —
+and nothing else changes -/
+theorem taxon_at_rank_effect (O : Annotate.Oracles) (rank : String) (r : Rec) :
+    ∃ r', addTaxonAtRank O [rank] r = .ok r' ∧ r'.id = r.id ∧ r'.seq = r.seq ∧
+      ∀ k, r'.attrs.lookup k =
+        match O.taxonAtRank rank r with
+        | none => r.attrs.lookup k
+        | some x =>
+          if k = rank ++ "_name" then some (.str ((x.map (·.2)).getD "NA"))
+          else if k = rank ++ "_taxid" then some (.int ((x.map (·.1)).getD (-1)))
+          else r.attrs.lookup k := by
+  have hk : ∀ kv ∈ taxonAtRankAttrs O rank r, ¬ Reserved kv.1 := by
+    intro kv h
+    have := taxonAtRankAttrs_keys O rank r kv h
+    simp only [List.mem_cons, List.not_mem_nil, or_false] at this
+    rcases this with e | e <;> rw [e] <;> exact append_underscore_not_reserved _ _ (by decide)
+  obtain ⟨r', e1, e2, e3, e4⟩ := setAttrs_effect _ hk r
+  refine ⟨r', e1, e2, e3, ?_⟩
+  intro k
+  rw [e4 k]
+  unfold taxonAtRankAttrs
+  cases hx : O.taxonAtRank rank r with
+  | none => simp [lastWrite_nil]
+  | some x =>
+    cases x with
+    | none =>
+      simp only [lastWrite_cons, lastWrite_nil, Option.map_none, Option.getD_none]
+      by_cases h1 : k = rank ++ "_name" <;> by_cases h2 : k = rank ++ "_taxid" <;> simp [h1, h2]
+    | some tn =>
+      simp only [lastWrite_cons, lastWrite_nil, Option.map_some, Option.getD_some]
+      by_cases h1 : k = rank ++ "_name" <;> by_cases h2 : k = rank ++ "_taxid" <;> simp [h1, h2]
+
+/-- `--taxonomic-path`, `--taxonomic-rank`, `--scientific-name` (`key` = `taxonomic_path`,
+`taxonomic_rank`, `scienctific_name`): exactly that attribute is written, with what the taxonomy says;
+an unknown taxid stops the program -/
+theorem taxonomy_slot_effect (key : String) (hkey : key ∈ ["taxonomic_path", "taxonomic_rank", "scienctific_name"])
+    (f : Rec → Option String) (r : Rec) :
+    (∀ s, f r = some s →
+      ∃ r', setFromTaxonomy key f r = .ok r' ∧ r'.id = r.id ∧ r'.seq = r.seq ∧
+        ∀ k, r'.attrs.lookup k = if k = key then some (.str s) else r.attrs.lookup k) ∧
+    (f r = none → setFromTaxonomy key f r = .fatal) := by
+  have hk : ¬ Reserved key := by
+    simp only [List.mem_cons, List.not_mem_nil, or_false] at hkey
+    rcases hkey with rfl | rfl | rfl <;> (unfold Reserved; decide)
+  constructor
+  · intro s hs
+    refine ⟨{ r with attrs := setKey key (.str s) r.attrs }, ?_, rfl, rfl, ?_⟩
+    · simp [setFromTaxonomy, hs, setAttribute_ordinary _ _ _ hk]
+    · intro k; simp [lookup_setKey]
+  · intro hs; simp [setFromTaxonomy, hs]
+
+/-- `--aho-corasick FILE`: with at least one hit the three slots `aho_corasick` (total),
+`aho_corasick_Fwd`, `aho_corasick_Rev` are written and nothing else changes; without hit the record
+is unchanged -/
+theorem aho_corasick_effect (O : Annotate.Oracles) (r : Rec) :
+    ∃ r', ahoCorasick O r = .ok r' ∧ r'.id = r.id ∧ r'.seq = r.seq ∧
+      ∀ k, r'.attrs.lookup k =
+        if (O.aho r).1 + (O.aho r).2 > 0 then
+          (if k = "aho_corasick" then some (.int ((O.aho r).1 + (O.aho r).2 : Nat))
+           else if k = "aho_corasick_Fwd" then some (.int (O.aho r).1)
+           else if k = "aho_corasick_Rev" then some (.int (O.aho r).2)
+           else r.attrs.lookup k)
+        else r.attrs.lookup k := by
+  have hk : ∀ kv ∈ ahoCorasickAttrs O r, ¬ Reserved kv.1 := by
+    intro kv h
+    have := ahoCorasickAttrs_keys O r kv h
+    simp only [List.mem_cons, List.not_mem_nil, or_false] at this
+    rcases this with e | e | e <;> rw [e] <;> (unfold Reserved; decide)
+  obtain ⟨r', e1, e2, e3, e4⟩ := setAttrs_effect _ hk r
+  refine ⟨r', e1, e2, e3, ?_⟩
+  intro k
+  rw [e4 k]
+  unfold ahoCorasickAttrs
+  by_cases hpos : (O.aho r).1 + (O.aho r).2 > 0
+  · simp only [hpos, if_true, lastWrite_cons, lastWrite_nil]
+    by_cases h1 : k = "aho_corasick"
+    · subst h1; simp
+    · by_cases h2 : k = "aho_corasick_Fwd"
+      · subst h2; simp
+      · by_cases h3 : k = "aho_corasick_Rev" <;> simp [h1, h2, h3]
+  · simp [hpos, lastWrite_nil]
+
+/-- `--pattern P [--pattern-name N] [--pattern-error e] [--allows-indels] [--only-forward]`: the direct
+strand first; the reverse strand only when the direct one does not match **and** `--only-forward` is not
+given.  On a match the four slots of `patternSlots N` (pairwise distinct, `patternSlots_distinct`)
+receive: the pattern, the matched text (reverse-complemented for a reverse-strand match), the number of
+errors, the location (`a..b` / `complement(a..b)`); nothing else changes; without match the record is
+unchanged -/
+theorem pattern_effect (O : Annotate.Oracles) (pattern name : String) (e : Int) (indel both : Bool) (r : Rec) :
+    ∃ r', matchPattern O pattern name e indel both r = .ok r' ∧ r'.id = r.id ∧ r'.seq = r.seq ∧
+      (∀ k, r'.attrs.lookup k = (lastWrite (matchPatternAttrs O pattern name e indel both r) k).or (r.attrs.lookup k)) ∧
+      (∀ k v, (k, v) ∈ matchPatternAttrs O pattern name e indel both r → r'.attrs.lookup k = some v) ∧
+      (∀ k, k ∉ [(patternSlots name).1, (patternSlots name).2.1, (patternSlots name).2.2.1, (patternSlots name).2.2.2] →
+        r'.attrs.lookup k = r.attrs.lookup k) ∧
+      (both = false → O.bestMatch pattern e indel true r = none → r' = r) := by
+  have hkeys := matchPatternAttrs_keys O pattern name e indel both r
+  have hk : ∀ kv ∈ matchPatternAttrs O pattern name e indel both r, ¬ Reserved kv.1 := by
+    intro kv h
+    have := hkeys kv h
+    obtain ⟨h1, h2, h3, h4⟩ := patternSlots_not_reserved name
+    simp only [List.mem_cons, List.not_mem_nil, or_false] at this
+    rcases this with e | e | e | e <;> rw [e] <;> assumption
+  obtain ⟨r', e1, e2, e3, e4⟩ := setAttrs_effect _ hk r
+  have hnd : ((matchPatternAttrs O pattern name e indel both r).map (·.1)).Nodup := by
+    obtain ⟨d1, d2, d3, d4, d5, d6⟩ := patternSlots_distinct name
+    unfold matchPatternAttrs
+    simp only
+    split
+    · simp [d1, d2, d3, d4, d5, d6]
+    · split
+      · split
+        · simp [d1, d2, d3, d4, d5, d6]
+        · simp
+      · simp
+  refine ⟨r', e1, e2, e3, e4, ?_, ?_, ?_⟩
+  · intro k v hkv
+    rw [e4 k, lastWrite_of_nodup _ hnd k v hkv]; rfl
+  · intro k hkn
+    rw [e4 k, lastWrite_none _ k (fun kv h e => hkn (e ▸ hkeys kv h))]; rfl
+  · intro hb hm
+    have : matchPatternAttrs O pattern name e indel both r = [] := by
+      unfold matchPatternAttrs; simp [hm, hb]
+    rw [this] at e1
+    exact (Outcome.ok.inj e1).symm
+
+/-- test: a forward match and, with `--only-forward`, no annotation for a reverse-strand match -/
+def exP : Annotate.Oracles :=
+  { evalExpr := fun _ _ => none,
+    bestMatch := fun _ _ _ direct _ => if direct then none else some ⟨1, 3, 0⟩ }
+example :
+    matchPattern exP "gt" "primer" 0 false true ⟨"r", [97, 97, 99, 103], []⟩
+      = .ok ⟨"r", [97, 97, 99, 103], [("primer_pattern", .str "gt"), ("primer_match", .str "gt"), ("primer_error", .int 0),
+          ("primer_location", .str "complement(2..3)")]⟩ ∧
+    matchPattern exP "gt" "primer" 0 false false ⟨"r", [97, 97, 99, 103], []⟩ = .ok ⟨"r", [97, 97, 99, 103], []⟩ := by
+  constructor <;> decide
+
+/-- `--add-lca-in SLOT [--lca-error x]`: the three slots of `lcaSlots SLOT` receive the taxid, the
+scientific name and the error of the ancestor the taxonomy finds (the last write wins if two names
+coincide); `merged_taxid` is written too when the record did not carry these statistics (`StatsOn`
+creates them — a side effect of the real worker that the model keeps); nothing else changes; a taxid
+unknown to the taxonomy is a panic -/
+theorem add_lca_effect (O : Annotate.Oracles) (slot err : String) (r : Rec) :
+    (∀ v, O.lca err r = some v →
+      ∃ r', addLCA O slot err r = .ok r' ∧ r'.id = r.id ∧ r'.seq = r.seq ∧
+        (∀ k, r'.attrs.lookup k = (lastWrite (lcaAttrs slot v) k).or (r.attrs.lookup k)) ∧
+        (∀ k, k ∉ ["merged_taxid", (lcaSlots slot).1, (lcaSlots slot).2.1, (lcaSlots slot).2.2] →
+          r'.attrs.lookup k = r.attrs.lookup k) ∧
+        r'.attrs.lookup (lcaSlots slot).2.2 = some v.err) ∧
+    (O.lca err r = none → addLCA O slot err r = .panic) := by
+  constructor
+  · intro v hv
+    have hkeys := lcaAttrs_keys slot v
+    have hk : ∀ kv ∈ lcaAttrs slot v, ¬ Reserved kv.1 := by
+      intro kv h
+      have := hkeys kv h
+      obtain ⟨h1, h2, h3⟩ := lcaSlots_not_reserved slot
+      simp only [List.mem_cons, List.not_mem_nil, or_false] at this
+      rcases this with e | e | e | e <;> rw [e]
+      · unfold Reserved; decide
+      · exact h1
+      · exact h2
+      · exact h3
+    obtain ⟨r', e1, e2, e3, e4⟩ := setAttrs_effect _ hk r
+    refine ⟨r', by simp [addLCA, hv, e1], e2, e3, e4, ?_, ?_⟩
+    · intro k hkn
+      rw [e4 k, lastWrite_none _ k (fun kv h e => hkn (e ▸ hkeys kv h))]; rfl
+    · rw [e4]
+      have : lastWrite (lcaAttrs slot v) (lcaSlots slot).2.2 = some v.err := by
+        unfold lcaAttrs lastWrite
+        rw [List.reverse_append]
+        simp [List.lookup]
+      rw [this]; rfl
+  · intro hv; simp [addLCA, hv]
+
 /-! ## 6. `CLIAnnotationPipeline`: selection, then the edits -/
 
 /-- a record is in the output of obiannotate iff it is selected and no edit fails on it, and then
@@ -684,5 +965,123 @@ theorem pipeline_exact (G : Grep.Oracles) (g : GrepOpts) (O : Annotate.Oracles) 
     · simp
     · simp only [if_true]
       cases annotate O o r <;> rfl
+
+
+/-! ## 7. the command line: an option is honoured or the command fails, never silently ignored
+
+`Getopt` is the model of go-getoptions as `GenerateOptionParser` configures it (bundling of short
+options, abbreviations of long names, `--`, unknown options fatal); the declarations are a parameter. -/
+
+open ObiVerif.Getopt in
+/-- **every option occurrence on the command line is accounted for**: when the handling of one
+occurrence (`--name[=v]`, or one letter of a bundle) does not end in an error, either an assignment to
+a declared option has been recorded, or — when no declared name or alias matches — its name has been
+recorded as unknown (which makes the command fail, `command_line_outcome`); a word with `n` bundled
+options leaves at least `n` records -/
+theorem option_never_silently_ignored (decls : List Decl) (word : String) :
+    (∀ entry arg rest st st' rest', handlePair decls word entry arg rest st = .ok (st', rest') →
+      st.accounted < st'.accounted ∧ st.unknown.length ≤ st'.unknown.length ∧
+      (matchesOf decls entry = [] → st'.unknown = st.unknown ++ [entry])) ∧
+    (∀ ps rest st st' rest', handlePairs decls word ps rest st = .ok (st', rest') →
+      st.accounted + ps.length ≤ st'.accounted) :=
+  ⟨fun entry arg rest st st' rest' h =>
+      ⟨handlePair_accounts decls word entry arg rest st st' rest' h,
+       handlePair_mono decls word entry arg rest st st' rest' h⟩,
+   handlePairs_accounts decls word⟩
+
+open ObiVerif.Getopt in
+/-- **how the command ends**: it runs (`ok`) only when the whole command line was parsed, no option was
+unknown, every required option was given and neither `--help` nor `--version` was asked; a parsing
+error (ambiguous abbreviation, missing argument, argument starting with `-`, invalid integer / float /
+`key=value`) or an unknown option ends it with exit status 1 (unless `--version` came first: then the
+version is printed) -/
+theorem command_line_outcome (decls : List Decl) (argv : List String) :
+    (∀ st, outcome decls argv = .ok st →
+      parse decls argv = .ok st ∧ st.unknown = [] ∧ (∀ d ∈ decls, d.required.isSome = true → called st d.name = true) ∧
+      called st "help" = false ∧ called st "version" = false) ∧
+    (∀ e st, parse decls argv = .error (e, st) → called st "version" = false → (outcome decls argv).exit = 1) ∧
+    (∀ st, parse decls argv = .ok st → st.unknown ≠ [] → called st "version" = false →
+      (outcome decls argv).exit = 1) := by
+  refine ⟨?_, ?_, ?_⟩
+  · intro st h
+    unfold outcome at h
+    cases hp : parse decls argv with
+    | error es =>
+      rw [hp] at h
+      obtain ⟨e, st0⟩ := es
+      simp only at h
+      split at h
+      · cases h
+      · split at h <;> cases h
+    | ok st0 =>
+      rw [hp] at h
+      simp only at h
+      split at h
+      · cases h
+      · rename_i hh
+        split at h
+        · cases h
+        · rename_i hv
+          split at h
+          · cases h
+          · rename_i hreq
+            split at h
+            · cases h
+            · rename_i hu
+              cases h
+              refine ⟨rfl, hu, ?_, by simpa using hh, by simpa using hv⟩
+              intro d hd hr
+              have := List.find?_eq_none.mp hreq d hd
+              simp only [hr, Bool.true_and, Bool.not_eq_true, Bool.not_eq_false'] at this
+              simpa using this
+  · intro e st hp hv
+    unfold outcome
+    rw [hp]
+    simp only [hv]
+    split <;> rfl
+  · intro st hp hu hv
+    unfold outcome
+    rw [hp]
+    simp only [hv]
+    split
+    · rfl
+    · simp only [Bool.false_eq_true, if_false]
+      split
+      · rfl
+      · split
+        · rfl
+        · rename_i h0; exact absurd h0 hu
+
+open ObiVerif.Getopt in
+/-- the spellings: `--` ends the options (what follows is text whatever it looks like); a bundle
+`-abc[=v]` is one option per letter, the argument going to the last; a declared name or alias is
+itself, never an abbreviation of a longer name; an abbreviation stands for the only name it starts -/
+theorem spellings (decls : List Decl) :
+    (∀ fuel rest st, loop decls (fuel + 1) ("--" :: rest) st = .ok { st with text := st.text ++ rest }) ∧
+    (∀ a b c arg, pairsOf (.short [a, b, c] arg) =
+      [(String.singleton a, none), (String.singleton b, none), (String.singleton c, arg)]) ∧
+    (∀ key, key ∈ decls.flatMap Decl.keys → matchesOf decls key = [key]) ∧
+    (∀ entry key, entry ∉ decls.flatMap Decl.keys →
+      (decls.flatMap Decl.keys).filter (fun k => entry.toList.isPrefixOf k.toList) = [key] →
+      matchesOf decls entry = [key]) :=
+  ⟨loop_terminator decls, pairsOf_short, matchesOf_exact decls, matchesOf_abbrev decls⟩
+
+/-- tests on the declarations of obigrep: a misspelt option, a missing argument, a negative number after
+a short option, a bundle, an abbreviation and `--` -/
+example :
+    (Getopt.outcome Getopt.grepDecls ["--min-lenght=3"]).exit = 1 ∧
+    (Getopt.outcome Getopt.grepDecls ["-l"]).exit = 1 ∧
+    (Getopt.outcome Getopt.grepDecls ["-l", "-3"]).exit = 1 ∧
+    (Getopt.outcome Getopt.grepDecls ["-vq"]).exit = 1 := by
+  refine ⟨by decide, by decide, by decide, by decide⟩
+
+/-- the assignments and the remaining words of a command line that is accepted -/
+def okEvents : Getopt.Outcome → Option (List (String × String) × List String)
+  | .ok st => some (st.events.map (fun e => (e.name, e.value)), st.text)
+  | _ => none
+
+example :
+    okEvents (Getopt.outcome Getopt.grepDecls ["-vl", "3", "--min-c", "2", "--", "-x"]) =
+      some ([("inverse-match", "1"), ("min-length", "3"), ("min-count", "2")], ["-x"]) := by decide
 
 end ObiVerif.Props.C16
